@@ -302,7 +302,9 @@ func (r *testResults) report(printer internal.Printer) bool {
 	if expectedFailures > 0 {
 		printer.Printf("(Another %d failed as expected due to being known failures/flakes.)", expectedFailures)
 	}
-	return failed == 0
+	// Cases that could not be run (client exited prematurely or stopped
+	// answering) have no verdict, so the run cannot be considered a success.
+	return failed == 0 && couldNotRun == 0
 }
 
 type testOutcome struct {
